@@ -381,7 +381,7 @@ PROPS["C06"] = {
             "identity / bit-exact copy), every other method of every type runs its original body exactly once per call. generics: Return-stubs on "
             "methods/functions of G[T] for T in int,int64,string,*GA,*GB,GS; instantiations of a different GC shape and other methods must be unaffected. "
             "concurrent-methods: 2..4 different methods of one type are mocked at the same moment by goroutines with their own builders (4 rounds); "
-            "each named method must then run exactly its own callback. A type named t08 also exists in the harness' own package and is addressed without Pkg(...). "
+            "each named method must then run exactly its own callback. A type named t08 also exists in the harness' own package and is addressed without Pkg(...). A gc operation (two collections, the queued finalizers run, the small size classes refilled) may come between mocking and calling: a mock lives until its builder is reset. "
             "Non-trivial: a history with a call on a mocked method or a call-all sweep while something is mocked; distinct by the op/tag sequence.",
     "assumptions": ["Struct(x) is given the receiver kind the method declares (README)", "callbacks on generic methods/functions are an open known finding: only Return-stubs are judged there"],
     "floors": [("methods", "call/mocked/value-receiver", 50), ("methods", "call/mocked/unexported-method", 50), ("methods", "call/mocked/unexported-type", 30),
@@ -463,9 +463,9 @@ PROPS["C09"] = {
             "supplied as ordinary / nil / stand-in struct / stand-in pointer; calls with independently built equal arguments must yield the condition's "
             "result, a call differing in one scalar argument the default. standin-reuse: 2..6 uses of ONE stand-in struct type (by value and by pointer) for "
             "three declared types of identical layout, as Return values and as When conditions. self-typed-values: values of the types goom computes with "
-            "(reflect.Value of 8 payload kinds incl. the zero Value, reflect.Type, []interface{}) as results, boxed into interface{} results and as When conditions; conditions on interface{} parameters with values of different dynamic types that share storage (zero-size structs, empty named strings, nil slices). Distinct by (function, supply kinds, codes).",
+            "(reflect.Value of 8 payload kinds incl. the zero Value, reflect.Type, []interface{}) as results, boxed into interface{} results and as When conditions; conditions on interface{} parameters with values of different dynamic types that share storage (zero-size structs, empty named strings, nil slices). In half of the result cases the caller refills the list it passed as Return(vals...) before the first call: the stub keeps the values it was given. Distinct by (function, supply kinds, codes).",
     "assumptions": ["same-size values of a different non-struct type are outside the enumerated guarantees"],
-    "floors": [("results", "rejected-wrong-size", 300), ("results", "delivered/untyped-nil/func", 8), ("results", "delivered/standin/struct", 50),
+    "floors": [("results", "caller-reused-its-result-list-after-Return", 300), ("results", "rejected-wrong-size", 300), ("results", "delivered/untyped-nil/func", 8), ("results", "delivered/standin/struct", 50),
                ("results", "delivered/standin-ptr/ptr", 5), ("results", "delivered/untyped-nil/interface", 50), ("results", "standin/pointer-shaped-struct", 20),
                ("condition-histories", "condhist/multi-step-variadic", 100), ("condition-histories", "condhist/variadic/in", 100),
                ("standin-reuse", "one-stand-in-type-for-several-declared-types", 200)],
@@ -499,7 +499,7 @@ PROPS["C13"] = {
             "too few/many parameters or results; parameter/result of different size at position i; When with 1..n-1 arguments; Return with 1..n-1 "
             "values; return value of wrong size at position i; an ill-formed element j of a Returns(...) sequence (wrong size / too few values) on functions, "
             "struct methods and interface methods; unknown method / symbol / method by name; Interface given a non-pointer or a pointer "
-            "to a non-interface; interface callback without *IContext, with too few / too many parameters, wrong result count, unknown method; sizes include zero-size types at any position; the function target may be a method expression (*T).M. Oracle: "
+            "to a non-interface; interface callback without *IContext, with too few / too many parameters, wrong result count, unknown method; sizes include zero-size types at any position; the function target may be a method expression (*T).M; a too-short condition is also given as the second and third clause of a chain (twice in a row), on variadic targets with two and three fixed parameters too. Oracle: "
             "the configuration call panics or errs; an error's cause chain terminates and reaches the repository's typed cause where one exists "
             "(ArgsNotMatch, ReturnsNotMatch, IllegalParamType); afterwards the executable image is unchanged, the target runs its original body, the "
             "interface variable is untouched and Reset does not panic. Every applicable mistake is non-trivial; distinct by (class, target, position).",
